@@ -139,7 +139,10 @@ def run(ctx):
         for _k in range(r.choice([2, 3, 4])):
             with common.log_level(r.choice([logging.DEBUG, logging.INFO, logging.WARNING])):
                 try:
-                    got = "ok " + hexb(utils.make_checksum(obj))
+                    # the same argument object is handed to every binding in turn and is still the caller's afterwards
+                    got = "ok " + hexb(r.choice([utils.make_checksum, codec.make_checksum])(obj))
+                    if bytes(obj) != bytes(buf):
+                        got = "err the argument was changed by the call"
                 except Exception as e:  # noqa
                     got = "err " + type(e).__name__
             why = oracle(sum(buf), got)
